@@ -156,8 +156,8 @@ prop("C13",
      min_nontrivial=300)
 
 prop("C14",
-     quick=[rapid("TestC14Quoted", 40000), rapid("TestC14Raw", 40000), rapid("TestC14Literal", 40000), rapid("TestC14Whitespace", 40000), plain("TestC14Identifiers")],
-     thorough=[rapid("TestC14Quoted", 400000, shards=5), rapid("TestC14Raw", 400000, shards=5), rapid("TestC14Literal", 400000, shards=4), rapid("TestC14Whitespace", 400000, shards=2), plain("TestC14Identifiers")],
+     quick=[rapid("TestC14Quoted", 40000), rapid("TestC14Raw", 40000), rapid("TestC14Literal", 40000), rapid("TestC14Whitespace", 40000), rapid("TestC14Mixed", 30000), plain("TestC14Identifiers")],
+     thorough=[rapid("TestC14Quoted", 400000, shards=5), rapid("TestC14Raw", 400000, shards=5), rapid("TestC14Literal", 400000, shards=4), rapid("TestC14Whitespace", 400000, shards=2), rapid("TestC14Mixed", 300000, shards=4), plain("TestC14Identifiers")],
      rule="round trips over Unicode strings biased to hard characters (quotes, backslash, backtick, slash, control characters, U+0080, U+2028, U+FFFD, BOM, combining marks, astral planes) and JSON values containing them: quoted identifier written with a randomised JSON escaper (literal / short escape / \\uXXXX upper+lower / surrogate pairs) selects exactly key s (also after a dot and as multi-select hash key); raw string with ' written as \\' denotes exactly s (raw domain only), also inside a larger expression; backtick literal with randomised escaping/whitespace denotes exactly v (standard library as referee of the spelling); exhaustive: all 1- and 2-character ASCII strings and all 3-character strings over a 19-character alphabet are unquoted identifiers iff they match [A-Za-z_][A-Za-z0-9_]*. Whitespace: the same token list (sentences and mutants) rendered with single spaces and with random space/tab/LF/CR/CRLF runs (or glued where the tokens stay separate) must compile alike and to the same AST. Non-trivial: the string needs an escape or contains a non-ASCII rune; every literal; every identifier candidate.",
      technique="round-trip properties with randomised escapers (rapid) + exhaustive short identifiers",
      level_text="Round trips need no reference implementation; the standard library's JSON decoder referees the spellings the harness writes.",
